@@ -317,6 +317,11 @@ OPS = [
   ("formula_empty", "*", op_value("Potential-Form", lambda k, v: k.startswith("other"), lambda v, rng: "")),
   # ---- placeholders
   ("unresolvable_placeholder", "*", in_any_section(lambda v, rng: " ".join(v.split()[:-1] + ["${missing}"]))),
+  # ${SECTION:KEY} where SECTION exists but has no such key, while [Variables] happens to hold an entry of that name: the
+  # placeholder names the section, so it is unresolvable (not an invitation to look the name up elsewhere)
+  ("cross_reference_to_a_key_only_variables_holds", "*", lambda it, info, rng: (
+      (bm.sec(it, "Variables")[1] if bm.sec(it, "Variables") else (it.insert(0, ["Variables", []]) or bm.sec(it, "Variables")[1])).append(["zz9key", "1.5"]),
+      in_any_section(lambda v, rng_: " ".join(v.split()[:-1] + ["${%s:zz9key}" % rng_.choice(["Tabulation", "Pair", "Tabulation"])]))(it, info, rng))[1]),
   ("unresolvable_cross_reference", "*", in_any_section(lambda v, rng: " ".join(v.split()[:-1] + ["${Species:Nope.mass}"]))),
   ("cross_reference_to_missing_section", "*", in_any_section(lambda v, rng: " ".join(v.split()[:-1] + ["${NoSuchSection:key}"]))),
   ("cross_reference_to_undefined_variable", "*", in_any_section(lambda v, rng: " ".join(v.split()[:-1] + ["${Variables:undefined_name}"]))),
